@@ -9,6 +9,7 @@ import (
 	"io"
 	"io/fs"
 	"log"
+	"math/rand"
 	"os"
 	"path/filepath"
 	"sort"
@@ -1385,6 +1386,14 @@ func (db *DB) TruncateWAL(ctx context.Context, size int64) (err error) {
 	// Clear all per-page checksums for the WAL.
 	db.wal.frameOffsets = make(map[uint32]int64)
 	db.wal.chksums = make(map[uint32][]ltx.Checksum)
+
+	// Start a new log generation the way SQLite does when it resets the log
+	// (walRestartHdr): the salt ends up in the SHM header and a connection
+	// that has restarted the log before copies it into the next WAL header
+	// instead of drawing a new one. A log that reuses the salt recorded in the
+	// last LTX file cannot be told from the previous generation on restart.
+	db.wal.salt1++
+	db.wal.salt2 = rand.Uint32()
 
 	return nil
 }
